@@ -133,6 +133,8 @@ func init() {
 			Run: func(P *Program, R *Report) { decodedProductRule(P, R, "C10.k") }},
 		Rule{ID: "C10.g", Explain: "the verified memo of an event list is set only by Verify after all tests, by uncompress (which recomputes indices and parent hashes) and by FlattenEventLists; uncompress derives Index and ParentHash of every event after the first from its predecessor.",
 			Run: func(P *Program, R *Report) { verifiedMemoRule(P, R) }},
+		Rule{ID: "C10.l", Explain: "no verification failure of an update, accumulator or event list is dropped (revocation/api.go) (same rule as C08.g: the error a call returns has a use - a nil test or a return - before it is overwritten, shadowed or left behind).",
+			Run: func(P *Program, R *Report) { errorResultsUsedRule(P, R, "C10.l", inFiles(P, "revocation/api.go"), nil, 15) }},
 	)
 }
 
